@@ -378,18 +378,18 @@ func (m *endpointManager) CompleteDeferredWork() error {
 			for _, t := range workload.Tiers {
 				log.Debugf("windows workload %v, tiers: %v", workload.Name, t.Name)
 				endOfTierDrop := (t.DefaultAction != string(v3.Pass))
-				if len(t.IngressPolicies) > 0 {
+				// Staged policies are never programmed (the policy manager skips them), so they must not
+				// count as policies of the tier either: policyIDsToStrings leaves them out.
+				if policyNames := policyIDsToStrings(policysets.PolicyNamePrefix, t.IngressPolicies); len(policyNames) > 0 {
 					if t.Name == names.DefaultTierName {
 						defaultTierIngressAppliesToEP = true
 					}
-					policyNames := policyIDsToStrings(policysets.PolicyNamePrefix, t.IngressPolicies)
 					ingressRules = append(ingressRules, m.policysetsDataplane.GetPolicySetRules(policyNames, true, endOfTierDrop))
 				}
-				if len(t.EgressPolicies) > 0 {
+				if policyNames := policyIDsToStrings(policysets.PolicyNamePrefix, t.EgressPolicies); len(policyNames) > 0 {
 					if t.Name == names.DefaultTierName {
 						defaultTierEgressAppliesToEP = true
 					}
-					policyNames := policyIDsToStrings(policysets.PolicyNamePrefix, t.EgressPolicies)
 					egressRules = append(egressRules, m.policysetsDataplane.GetPolicySetRules(policyNames, false, endOfTierDrop))
 				}
 			}
@@ -603,9 +603,13 @@ func profileIDToString(prefix string, name string) string {
 }
 
 // policyIDsToStrings converts a list of PolicyID to their string representation with prefix.
+// Staged policies are skipped: they have no policy set in the dataplane.
 func policyIDsToStrings(prefix string, in []*proto.PolicyID) []string {
 	var out []string
 	for _, id := range in {
+		if model.KindIsStaged(id.Kind) {
+			continue
+		}
 		out = append(out, policyIDToString(prefix, id))
 	}
 	return out
